@@ -5,6 +5,7 @@ import (
 	"context"
 	"errors"
 	"path"
+	"strings"
 	"time"
 
 	"github.com/hack-pad/hackpadfs"
@@ -262,6 +263,9 @@ func (fs *FS) Rename(oldname, newname string) error {
 	if err != nil {
 		return err
 	}
+	if err := fs.checkRenameDestination(oldname, newname, oldInfo); err != nil {
+		return &hackpadfs.LinkError{Op: "rename", Old: oldname, New: newname, Err: err}
+	}
 	if !oldInfo.IsDir() {
 		if oldname == newname {
 			return nil
@@ -306,6 +310,37 @@ func (fs *FS) Rename(oldname, newname string) error {
 		}
 	}
 	return fs.setFile(oldname, nil)
+}
+
+// checkRenameDestination verifies 'newname' is an acceptable target for renaming 'oldname', like os.Rename() does.
+func (fs *FS) checkRenameDestination(oldname, newname string, oldInfo hackpadfs.FileInfo) error {
+	if oldname == newname {
+		return nil
+	}
+	if strings.HasPrefix(newname, oldname+"/") {
+		if oldInfo.IsDir() {
+			// a directory can't be moved into itself
+			return hackpadfs.ErrInvalid
+		}
+		return hackpadfs.ErrNotDir
+	}
+	newFile, err := fs.getFile(newname)
+	switch {
+	case err == nil && newFile.Mode().IsDir():
+		return hackpadfs.ErrExist
+	case err == nil && oldInfo.IsDir():
+		return hackpadfs.ErrNotDir
+	case err != nil && !errors.Is(err, hackpadfs.ErrNotExist):
+		return err
+	}
+	newParent, err := fs.getFile(path.Dir(newname))
+	if err != nil {
+		return err
+	}
+	if !newParent.Mode().IsDir() {
+		return hackpadfs.ErrNotDir
+	}
+	return nil
 }
 
 // Stat implements hackpadfs.StatFS
